@@ -22,8 +22,8 @@ def _quantised_linear(
     input: Tensor,
     weight: Tensor,
     bias: Optional[Tensor],
-    fwd_format_tuple: Tuple[int, int],
-    bwd_format_tuple: Tuple[int, int],
+    fwd_format_tuple: Tuple[int, int, str, int],
+    bwd_format_tuple: Tuple[int, int, str, int],
 ) -> Tensor:
     fwd_format = tuple_to_format(fwd_format_tuple)
     bwd_format = tuple_to_format(bwd_format_tuple)
@@ -37,8 +37,8 @@ def _quantised_u_linear(
     input: Tensor,
     weight: Tensor,
     bias: Optional[Tensor],
-    fwd_format_tuple: Tuple[int, int],
-    bwd_format_tuple: Tuple[int, int],
+    fwd_format_tuple: Tuple[int, int, str, int],
+    bwd_format_tuple: Tuple[int, int, str, int],
     constraint: Optional[str] = "to_output_scale",
 ) -> Tensor:
     fwd_format = tuple_to_format(fwd_format_tuple)
@@ -52,8 +52,8 @@ def _quantised_scaled_dot_product_attention(
     query: Tensor,
     key: Tensor,
     value: Tensor,
-    fwd_format_tuple: Tuple[int, int],
-    bwd_format_tuple: Tuple[int, int],
+    fwd_format_tuple: Tuple[int, int, str, int],
+    bwd_format_tuple: Tuple[int, int, str, int],
     **kwargs: Any,
 ) -> Tensor:
     fwd_format = tuple_to_format(fwd_format_tuple)
@@ -67,8 +67,8 @@ def _quantised_u_scaled_dot_product_attention(
     query: Tensor,
     key: Tensor,
     value: Tensor,
-    fwd_format_tuple: Tuple[int, int],
-    bwd_format_tuple: Tuple[int, int],
+    fwd_format_tuple: Tuple[int, int, str, int],
+    bwd_format_tuple: Tuple[int, int, str, int],
     **kwargs: Any,
 ) -> Tensor:
     fwd_format = tuple_to_format(fwd_format_tuple)
